@@ -19,9 +19,10 @@ theorem checkAll_mem (d : TDict) (h : checkAll d = true) (p : Attr × RawVal) (h
   | none => simp [hv] at this
   | some s => exact ⟨s, rfl, by simpa [hv] using this⟩
 
-/-- after the checks, a `clean` value that cannot be iterated is a number equal to `True` -/
-theorem cleanStep_crash (d : TDict) (hc : checkAll d = true) (e : Exn)
-    (h : cleanStep (get d .clean) = .error (.crash e)) : cleanBad (get d .clean) = true := by
+/-- after the checks `clean` is `True`, a list or a tuple: iterating it cannot fail -/
+theorem cleanStep_no_crash (d : TDict) (hc : checkAll d = true) (e : Exn) :
+    cleanStep (get d .clean) ≠ .error (.crash e) := by
+  intro h
   cases hg : get d .clean with
   | none => rw [hg] at h; simp [cleanStep] at h
   | some v =>
@@ -31,26 +32,21 @@ theorem cleanStep_crash (d : TDict) (hc : checkAll d = true) (e : Exn)
       rw [this] at hs; exact (Option.some.inj hs).symm
     subst hs'
     rw [hg] at h
-    cases v <;> simp_all [cleanStep, cleanBad, checkAttr, effective, RawVal.isInstance, RawVal.eqLit]
+    cases v <;> simp_all [cleanStep, checkAttr, effective, RawVal.isInstance, RawVal.eqLit]
 
-theorem getargsStep_crash (d : TDict) (e : Exn) (h : getargsStep d = .error (.crash e)) : tupleExtend d = true := by
-  unfold getargsStep at h
-  unfold tupleExtend
-  by_cases he : (getargsEntries (get d .getargs)).isEmpty = true
-  · simp [he] at h
-  · simp only [he, Bool.false_eq_true, if_false] at h
-    simp only [he, Bool.not_false, Bool.true_and]
-    split at h
-    · rfl
-    · split at h <;> simp at h
+theorem getargsStep_no_crash (d : TDict) (e : Exn) : getargsStep d ≠ .error (.crash e) := by
+  unfold getargsStep
+  split
+  · simp
+  · split <;> simp
 
 theorem strName_no_crash (v : Option RawVal) (e : Exn) : strName v ≠ .error (.crash e) := by
   unfold strName
   split <;> simp
 
-/-- `Task.__init__` raises something other than InvalidTask only on the two characterised shapes -/
-theorem initTask_crash (d : TDict) (e : Exn) (h : initTask d = .error (.crash e)) :
-    cleanBad (get d .clean) = true ∨ tupleExtend d = true := by
+/-- `Task.__init__` raises nothing but InvalidTask -/
+theorem initTask_no_crash (d : TDict) (e : Exn) : initTask d ≠ .error (.crash e) := by
+  intro h
   unfold initTask at h
   by_cases hc : checkAll d = true
   · simp only [hc, Bool.not_true, Bool.false_eq_true, if_false] at h
@@ -68,24 +64,24 @@ theorem initTask_crash (d : TDict) (e : Exn) (h : initTask d = .error (.crash e)
       · cases hg : getargsStep d with
         | error e' =>
           rw [hg] at h; simp only at h; cases h
-          exact Or.inr (getargsStep_crash d e hg)
+          exact absurd hg (getargsStep_no_crash d e)
         | ok ga =>
           rw [hg] at h; simp only at h
           cases hcl : cleanStep (get d .clean) with
           | error e' =>
             rw [hcl] at h; simp only at h; cases h
-            exact Or.inl (cleanStep_crash d hc e hcl)
+            exact absurd hcl (cleanStep_no_crash d hc e)
           | ok u => rw [hcl] at h; simp at h
   · simp [hc] at h
 
-theorem dictToTask_crash (d : TDict) (e : Exn) (h : dictToTask d = .error (.crash e)) :
-    cleanBad (get d .clean) = true ∨ tupleExtend d = true := by
+theorem dictToTask_no_crash (d : TDict) (e : Exn) : dictToTask d ≠ .error (.crash e) := by
+  intro h
   unfold dictToTask at h
   split at h
   · simp at h
   · split at h
     · simp at h
-    · exact initTask_crash d e h
+    · exact initTask_no_crash d e h
 
 theorem mem_dedup (l : List Name) (n : Name) : n ∈ dedup l ↔ n ∈ l := by
   induction l with
@@ -174,11 +170,9 @@ theorem dictToTask_refs (d : TDict) (t : Task) (h : dictToTask d = .ok t) :
         rw [this] at he; simp at he
       · split at hga
         · simp at hga
-        · split at hga
-          · simp at hga
-          · cases hga
-            simp only [List.mem_filterMap]
-            exact ⟨e, he, htk⟩
+        · cases hga
+          simp only [List.mem_filterMap]
+          exact ⟨e, he, htk⟩
     by_cases hs : tk ∈ seqItems (get d .setup)
     · simp [mkTask, hs]
     · simp [mkTask, mem_dedup, List.mem_filter, hmem, hs]
